@@ -102,6 +102,9 @@ Placements ==
     IF Family = "table"
     THEN {{P(m.name, m.kind)} : m \in Table} \cup {{P(m.name, Other(m.kind))} : m \in Table}
          \cup {{}, {P("notes.txt", "file")}, {P("src", "dir")}}
+    ELSE IF Family = "pairs"      \* two markers of the table in one directory: the types add up
+    THEN {pl \in {{P(a.name, a.kind), P(b.name, b.kind)} : a \in {m \in Table : m.types # {}}, b \in Table} :
+             NamesDistinct(pl)}
     ELSE {pl \in SUBSET Rep : Cardinality(pl) <= MaxPerLevel /\ NamesDistinct(pl)}
 
 VARIABLES chain, start, cur, acc
